@@ -36,6 +36,7 @@ not for runtime evaluation in the generated function.
 
 # external imports
 import numpy as np
+from ..base.base_funcs import _interp_rows
 
 # meta infos
 __author__ = "Richard Gast"
@@ -87,7 +88,7 @@ jax_funcs = {
     # Bind PyRates' `interp` directly to jax.numpy.interp — the previous
     # custom helper used a Python `if`, which the JIT tracer cannot handle.
     'interp':      {'call': 'interp',   'func': np.interp, 'imports': ['jax.numpy.interp']},
-    'interp_rows': {'call': 'interp_rows', 'func': np.interp, 'def': interp_rows,
+    'interp_rows': {'call': 'interp_rows', 'func': _interp_rows, 'def': interp_rows,
                     'imports': ['jax.numpy.interp', 'jax.numpy.array']},
     'wsum':        {'call': 'wsum',     'def': wsum, 'imports': ['jax.numpy.einsum']},
     'real':        {'call': 'real',     'func': np.real,         'imports': ['jax.numpy.real']},
